@@ -197,6 +197,12 @@ class _Return(Exception):
         self.value = value
 
 
+def _strip_parents(node):
+    """a copy of the expression without the parent links (which make deepcopy walk the whole module)"""
+    from .model import _clone
+    return _clone(node)
+
+
 class Extractor:
     def __init__(self, repo, cls):
         self.repo = repo
@@ -245,12 +251,32 @@ class Extractor:
                 return
         self.problems.append(Problem(kind, text, node, func))
 
+    def _dissolved(self, m):
+        """the method with the small helper objects it creates and drops again (a line buffer, ...) dissolved into locals -
+        nothing else is pasted in: calls of the emitter's own methods and of module functions stay calls"""
+        cache = self.__dict__.setdefault('_dissolve_cache', {})
+        if m not in cache:
+            view = m
+            if any(isinstance(x, ast.Call) and isinstance(x.func, ast.Name) and x.func.id in m.module.classes
+                   for x in own_nodes(m.node)):
+                from .inline import inline_view
+                keep = tuple(f for c in self.repo.mro(self.cls) for f in c.methods.values()) + tuple(m.module.functions.values())
+                try:
+                    v = inline_view(self.repo, m, keep=keep)
+                    if v.inlined:
+                        view = v
+                except (AnalysisError, RecursionError):
+                    pass
+            cache[m] = view
+        return cache[m]
+
     # -- calls ----------------------------------------------------------------------------
     def call(self, m, args, st, method=True):
         """symbolically run method m (or, with method=False, a module-level helper); -> list of (state, return value)"""
         self.depth += 1
         if self.depth > 12:
             raise AnalysisError('templates: call depth exceeded in %s' % m.qname)
+        m = self._dissolved(m)
         try:
             s0 = st.copy()
             saved_env = st.env
@@ -336,6 +362,16 @@ class Extractor:
                             nxt.extend(self.block(s.body, cur, m))
                         states = nxt
                     out.extend(states)
+                elif isinstance(it, SObj) and self._append_loop(s) is not None and \
+                        isinstance(s2.env.get(self._append_loop(s)[0]), PyList):
+                    # for x in xs: [t = g(x);] acc.append(f(x, t))   is   acc += [f(x, g(x)) for x in xs]
+                    acc, elt = self._append_loop(s)
+                    comp = ast.ListComp(elt=elt, generators=[ast.comprehension(target=s.target, iter=s.iter, ifs=[], is_async=0)])
+                    ast.copy_location(comp, s)
+                    ast.fix_missing_locations(comp)
+                    for s3, v in self.listcomp(comp, s2, m):
+                        s3.env[acc].items.extend(v.items)
+                        out.append((s3, _NORET))
                 elif isinstance(it, SObj) and isinstance(s.target, ast.Name) and len(s.body) == 1 and not s.orelse and \
                         isinstance(s.body[0], ast.Expr) and isinstance(s.body[0].value, ast.Call) and \
                         isinstance(s.body[0].value.func, ast.Attribute) and s.body[0].value.func.attr == 'append' and \
@@ -354,6 +390,38 @@ class Extractor:
             self.raising_paths.append((m, s, list(st.guards)))
             return []
         raise AnalysisError('templates: unsupported statement %s in %s line %d' % (type(s).__name__, m.qname, s.lineno))
+
+    @staticmethod
+    def _append_loop(s):
+        """``for x in xs: t1 = e1; ..; acc.append(e)`` with single-use temporaries -> (acc, e with the temporaries substituted)"""
+        if not isinstance(s.target, ast.Name) or s.orelse or not s.body:
+            return None
+        last = s.body[-1]
+        if not (isinstance(last, ast.Expr) and isinstance(last.value, ast.Call) and isinstance(last.value.func, ast.Attribute) and
+                last.value.func.attr == 'append' and isinstance(last.value.func.value, ast.Name) and len(last.value.args) == 1 and
+                not last.value.keywords):
+            return None
+        acc = last.value.func.value.id
+        subst = {}
+        import copy
+
+        class Sub(ast.NodeTransformer):
+            def visit_Name(self, node):
+                if isinstance(node.ctx, ast.Load) and node.id in subst:
+                    return copy.deepcopy(subst[node.id])
+                return node
+        for st_ in s.body[:-1]:
+            if not (isinstance(st_, ast.Assign) and len(st_.targets) == 1 and isinstance(st_.targets[0], ast.Name)):
+                return None
+            name = st_.targets[0].id
+            if name == acc or name == s.target.id or name in subst:
+                return None
+            val = Sub().visit(copy.deepcopy(_strip_parents(st_.value)))
+            subst[name] = val
+        elt = Sub().visit(copy.deepcopy(_strip_parents(last.value.args[0])))
+        if any(isinstance(x, ast.Name) and x.id == acc for x in ast.walk(elt)):
+            return None
+        return acc, elt
 
     def assign(self, t, v, st, m):
         if isinstance(t, ast.Name):
@@ -442,6 +510,12 @@ class Extractor:
         if isinstance(e, ast.Name):
             if e.id in st.env:
                 return [(st, st.env[e.id])]
+            # a module-level name bound once to a string constant is that string
+            r_ = self.repo.module_binding(m.module, e.id)
+            if r_ and r_[0] == 'var' and isinstance(r_[2], ast.Constant) and isinstance(r_[2].value, str):
+                owner = [mod for mod in self.repo.modules.values() if e.id in mod.assign_nodes and mod.assigns.get(e.id) is r_[2]]
+                if owner and len(owner[0].assign_nodes[e.id]) == 1:
+                    return [(st, Lit(r_[2].value))]
             return [(st, ('global', e.id))]
         if isinstance(e, ast.Attribute):
             out = []
